@@ -213,7 +213,7 @@ def run(ctx):
             if order == 1 and nk < 2:
                 continue
             for extrap in (False, True):
-                for variant in range(ctx.size(3, 30)):
+                for variant in range(ctx.size(6, 300)):
                     item += 1
                     if not ctx.mine(item):
                         continue
@@ -254,7 +254,7 @@ def run(ctx):
                         ctx.sample({"spline": repr(cal), "queries": [float(x) for x in spline_queries(cal, integer)][:12]})
 
     # ---- 2. polynomials ---------------------------------------------------------------------------------------------
-    for i in range(ctx.size(400, 20_000)):
+    for i in range(ctx.size(2000, 600_000)):
         item += 1
         if not ctx.mine(item):
             continue
@@ -288,7 +288,7 @@ def run(ctx):
                  (ir.Comparison("MODE", "7"),), (ir.Comparison("LABEL", "ON"),), (ir.Comparison("LABEL", "1", "==", False),)]
     assigns = [{"MODE": ("int", m, m), "GAIN": ("float", g, gi), "LABEL": ("str", lab, li)}
                for m in (0, 1, 2, 3) for g, gi in ((0.0, 0), (0.5, 1), (2.0, 4)) for lab, li in (("ON", 1), ("OFF", 0))]
-    for i in range(ctx.size(250, 12_000)):
+    for i in range(ctx.size(1000, 300_000)):
         item += 1
         if not ctx.mine(item):
             continue
@@ -329,7 +329,7 @@ def run(ctx):
                      {"kind": kind, "cal": f"ctx{ncc}+{calname(default)}", "source": src, "q": "falsy-raw" if raw == 0 else "-", "_lib": libs[route]})
 
     # ---- 4. enum / bool over float encodings, signed ints, unlisted values -------------------------------------------
-    for i in range(ctx.size(120, 4000)):
+    for i in range(ctx.size(500, 100_000)):
         item += 1
         if not ctx.mine(item):
             continue
